@@ -50,7 +50,7 @@ CORPUS_TECH = "runtime monitoring: generated receiver programs compiled against 
 CLAIMS.update({
     "C01": dict(engine="corpus", text="Held on K generated receiver programs (all six traits, the derive option space, nesting to depth 2-3) x N mistake-free inputs each: the dumped value equals the reference interpreter's value field by field; every value source (defaults, from_none, from_word, from_ident, with, map, and_then, container transforms) is tagged so a wrong source is visible.", note=CORPUS_NOTE, technique=CORPUS_TECH),
     "C02": dict(engine="corpus", text="Held on K programs x N inputs with 0..8 injected mistakes at any depth (incl. maps, enum variants, struct variants, flatten members, several attributes): Ok iff no mistake, len() equals the predicted number of leaves, and observed leaves correspond one-to-one to predicted ones on (path, kind family, named item).", note=CORPUS_NOTE, technique=CORPUS_TECH),
-    "C03": dict(engine="direct+corpus", text="Algebra: random with_span/at/multiple/flatten histories keep the first span, flatten keeps or inherits spans, diagnostics carry them. Corpus: every matched error leaf's span lies inside the predicted item / value / name byte range; unspanned only where nothing encloses and then the diagnostic renders the path.", note=CORPUS_NOTE + " Spans are byte ranges of proc-macro2's fallback source map (span-locations).", technique=CORPUS_TECH + "; plus model-checked operation histories on Error values"),
+    "C03": dict(engine="direct+corpus", text="Algebra: random with_span/at/multiple/flatten histories keep the first span, flatten keeps or inherits spans, diagnostics carry them. Keyed lists: every leaf about an item of a HashMap / BTreeMap list (repeated key, bad key, bad value, bare literal) is spanned inside that item. Corpus: every matched error leaf's span lies inside the predicted item / value / name / array-element byte range (a leaf whose location path is wrong is still judged by kind); unspanned only where nothing encloses and then the diagnostic renders the path.", note=CORPUS_NOTE + " Spans are byte ranges of proc-macro2's fallback source map (span-locations).", technique=CORPUS_TECH + "; plus model-checked operation histories on Error values"),
     "C07": dict(engine="direct+corpus", text="Built-ins: 100 hand-written FromMeta targets x hostile meta items (token soup, 44-digit integers, 1e999, 120-deep nesting, every literal kind) under catch_unwind. Corpus: four corpora (general, element-level with all forward_attrs forms incl. the empty list and no attributes(..), enum grid, magic fields + supports + body receivers) x generated inputs and two token-level hostile mutations of each (deleted / duplicated / replaced tokens, other delimiters, deep nesting, unions, empty enums): every reply is ok or err; a panic reply or a dead driver process is the violation.", note=CORPUS_NOTE + " A panic is observed through catch_unwind in the driver / harness and through the driver's exit status.", technique="runtime monitoring: panic / abort monitor around every parsing entry point under hostile generated workloads"),
     "C16": dict(engine="direct+corpus", text="API: random structs / enums / unions through ast::Fields, ast::Data, ast::Generics and the library's own implementers mirror the input and re-print the fields. Corpus: K receivers declaring random subsets of magic fields (generics plain / SpannedValue / WithOriginal / Result, data plain or with-converter, generated FromVariant / FromField body receivers) x structured input elements (4 struct styles x 0..6 fields, enums of 0..6 mixed variants with discriminants, unions, generics, visibilities): every magic field equals the corresponding part of the input token-for-token, body entries in order, failures exactly as predicted.", note=CORPUS_NOTE, technique=CORPUS_TECH),
     "C18": dict(engine="direct+corpus", text="API: all 2^4 runtime shape sets x shapes x bodies x every AsShape implementor (exhaustive). Corpus: receivers with random supports(..) word sets (FromDeriveInput and FromVariant) x all body shapes incl. enums with mixed variants and unions: accept / one error per non-conforming variant / error (never a crash) on unions, as the documented table says.", note=CORPUS_NOTE, technique=CORPUS_TECH + "; exhaustive table check of the stand-alone API"),
